@@ -82,6 +82,9 @@ func Main(o Options) {
 	}
 	r := rep.New(o.Property, *tier, o.Level)
 	r.Assume = o.Assume
+	if part := os.Getenv("VERIF_PART_IN"); part != "" {
+		r.MergePart(part)
+	}
 	if o.Extra != nil {
 		o.Extra(r, *tier)
 	}
